@@ -20,6 +20,7 @@ func init() {
 			ruleC03R4(r)
 			ruleC03R5(r)
 			ruleNameAgreement(r, "R6", "/iscp", "/wire")
+			ruleQoSPartition(r, "R7")
 		},
 	})
 }
@@ -352,4 +353,31 @@ func ruleC03R5(r *Run) {
 		})
 	}
 	r.Check(name+" ack before return", okOrder, p.pos(rm.Pos()), name, "the metadata is returned only after its ack was sent successfully")
+}
+
+// ruleQoSPartition: every switch over message.QoS in package wire groups the QoS values the same way.
+func ruleQoSPartition(r *Run, id string) {
+	r.Begin(id, "QoS routing siblings agree: all switch statements over message.QoS in package wire (which transport an upstream writes to, which routing table a downstream subscribes in) partition the QoS constants identically; a stream whose subscription is registered in a different table than the one its traffic is dispatched from receives nothing", 2)
+	p := r.P
+	pk := p.ByPath[modPath+"/wire"]
+	if pk == nil {
+		r.Undecided("package wire", "not loaded")
+		return
+	}
+	qos := p.Named("/message", "QoS")
+	var tables []*enumSwitchPartition
+	for _, es := range collectEnumPartitions(pk) {
+		if es.TagType.Obj() == qos.Obj() {
+			tables = append(tables, es)
+		}
+	}
+	if len(tables) < 2 {
+		r.Undecided("QoS switches", fmt.Sprintf("%d found in package wire", len(tables)))
+		return
+	}
+	ref := tables[0]
+	for _, t := range tables {
+		same := t.Canon == ref.Canon
+		r.Check("partition in "+t.Fn, same, p.pos(t.Pos), t.Fn, fmt.Sprintf("%s groups the QoS values as %s; %s groups them as %s", t.Fn, t.Canon, ref.Fn, ref.Canon))
+	}
 }
